@@ -32,6 +32,8 @@ add("C08","C08_views_consistent","once all calls have returned the state is a re
  "∀ (n pc : Nat) (_ : 1 ≤ n) (_ : 1 ≤ pc) (c : CSt (Cache K V) (FifoCache.Op K V) (FifoCache.Out K V) Unit),\n    CReach (single FifoCache.step) (FifoCache.init n pc) c → OpsOK (FifoCache.init n pc) (c.lin.map (·.op)) →\n    WF c.shared ∧ (keys c.shared).Nodup ∧ (∀ k, contains c.shared k = true ↔ k ∈ keys c.shared) ∧\n    len (sweep c.shared) ≤ capacity (sweep c.shared)", M)
 add("C11","C11_concurrent_conservation","under concurrent Push/Pop/Peek/Len/Values no value is lost, duplicated or invented: in every reachable state the values on the stack together with the values popped so far are exactly the values pushed so far (as multisets), and the ids handed out are pairwise distinct.",
  "∀ (c : CSt (Stack Nat) StackConc.Op StackConc.Ret Nat), CReach StackConc.impl (GenericStack.new : Stack Nat) c →\n    ((c.shared.entries.map (·.2)) ++ StackConc.poppedVals c.lin).Perm (StackConc.pushedVals c.lin) ∧\n    (StackConc.pushedIds c.lin).Nodup ∧ (c.shared.entries.map (·.1)).Nodup")
+add("C11","C11_concurrent_heap_order","the heap order on ids survives every interleaving: in every reachable state of the concurrent stack the entries form a heap for the id order, and whatever a Pop removes carries the smallest id present — so Pops that run after concurrent Pushes have completed return the values in the order of the ids Push returned.",
+ "∀ (c : CSt (Stack Nat) StackConc.Op StackConc.Ret Nat), CReach StackConc.impl (GenericStack.new : Stack Nat) c →\n    TV.GoHeap.IsHeap lessId c.shared.entries ∧\n    ∀ e rest, TV.GoHeap.pop lessId c.shared.entries = some (e, rest) → ∀ x ∈ c.shared.entries, e.1 ≤ x.1")
 
 if emit_spec:
     with open(f"{base}/Proofs/LockedObject.lean", "w") as f:
